@@ -16,7 +16,8 @@
    C20_clean_cmd_cleaned_is_C14).
 
    Result: partial.  Proved: the frame (DB untouched up to the documented checker-change
-   invalidation, no other effect; clean --dry-run: per action of an arbitrary clean list, invoked iff it
+   invalidation, which never reaches a task carrying the ignore mark (C20_list_status_ignored_after_checker_switch,
+   C20_info_ignored_after_checker_switch); no other effect; clean --dry-run: per action of an arbitrary clean list, invoked iff it
    is a python-action taking `dryrun`, independently of its neighbours, no DB record and no file changed); `list --status` = the decision of `run` for every task (calc_dep
    included: both merge the values saved by the calc_dep tasks, those of the calc_dep tasks these values name,
    and so on: the merge is a fix-point that terminates and holds exactly the contributions of the calc_dep
@@ -68,6 +69,36 @@ Theorem C20_no_query_no_change : forall (md5 : N -> N) (v : ver) (name_ltb : nam
      lres_db d (list_cmd md5 v name_ltb iv cv tb o c fs d) x = d x /\ ires_db d (info_cmd md5 v iv cv tb pos hide c fs d) x = d x).
 Proof. exact T_no_query_no_change. Qed.
 Print Assumptions C20_no_query_no_change.
+
+(* an ignore mark AND a changed file-checker setting (seeded change C20d: List._print_task asking get_status BEFORE looking at
+   the ignore mark).  C20_list_frame / C20_info_frame allow the record of ANY task written under another checker to go; for a
+   task that carries the ignore mark that would be wrong -- `run` tests the mark first (runner.py select_task) and never
+   hands the task to get_status, so its record stays and it is skipped as ignored, whatever checker is configured.  No
+   hypothesis on the checker: in particular after a switch.  `list` (any options, any outcome, both code versions): the
+   record is as before -- in memory and on disk, on every backend --; the letter computed for the task is I and the DB is
+   returned as it is; `run` decides "ignored" on any definition; and in the whole command every line of that task shows I,
+   examined in a DB where its record is still the initial one. *)
+Theorem C20_list_status_ignored_after_checker_switch : forall (md5 : N -> N) (v : ver) (name_ltb : name -> name -> bool) (iv : iver) (cv : name -> cvals)
+    (tb : table) (o : lopts) (c : ck) (fs : fsys) (d : db) (b : backend) (x : name),
+  status_is_ignore d x = true ->
+  persisted b d (lres_db d (list_cmd md5 v name_ltb iv cv tb o c fs d)) x = d x /\
+  (forall t, l_name t = x -> task_status md5 v iv cv tb c fs d t = (Some LtI, d)) /\
+  (forall df, run_decision md5 v c fs d x df = DIgnore) /\
+  (forall pl, print_list name_ltb tb o = POk pl ->
+     forall l dk, In (x, l, dk) (status_letters md5 v iv cv tb c fs pl d) -> l = Some LtI /\ dk x = d x).
+Proof. exact T_list_status_ignored. Qed.
+Print Assumptions C20_list_status_ignored_after_checker_switch.
+
+(* the same for `info` (HEAD, [fixIgn]: the mark is looked at first): whatever task is asked about, with or without
+   --no-status, the record of an ignored task is as before; asked about the ignored task itself it answers "ignored",
+   prints no reason, returns 0 and leaves the whole DB as it is *)
+Theorem C20_info_ignored_after_checker_switch : forall (md5 : N -> N) (v : ver) (iv : iver) (cv : name -> cvals) (tb : table) (pos : list name) (hide : bool)
+    (c : ck) (fs : fsys) (d : db) (b : backend) (x : name),
+  fixIgn iv = true -> status_is_ignore d x = true ->
+  persisted b d (ires_db d (info_cmd md5 v iv cv tb pos hide c fs d)) x = d x /\
+  (forall t, lookup tb x = Some t -> info_cmd md5 v iv cv tb [x] false c fs d = IOk IIgnored [] 0 d).
+Proof. exact T_info_ignored. Qed.
+Print Assumptions C20_info_ignored_after_checker_switch.
 
 (* the commands as histories (Model/History.v): the DB after `list` is the DB after the `Check`
    operations of the printed tasks that are not ignored, `info` is one `CheckLog`; these are status
@@ -462,6 +493,36 @@ Example C20_frame_exception_nonvacuous :
 Proof.
   cbv zeta. split; [vm_compute; discriminate|]. eexists. eexists. split; [vm_compute; reflexivity|].
   split; [reflexivity|]. split; [simpl; auto|]. split; [simpl; auto 6|]. split; reflexivity.
+Qed.
+
+(* ignore mark + checker switch: run t1 t2 (md5); `ignore t1`; check_file_uptodate = timestamp.  Both records were written under
+   the other checker and t1 carries the mark: the hypotheses of C20_list_status_ignored_after_checker_switch hold where the
+   exception of C20_list_frame applies.  `list --status` prints I for t1 and R for t2; t2's record goes (the documented
+   invalidation), t1's stays -- also on disk with dbm --; `info t1` says ignored.  Asking get_status FIRST (what
+   List._print_task must not do) would answer "run" and drop t1's record together with its mark. *)
+Definition isw_tab : table :=
+  [{| l_name := 1%N; l_private := false; l_subtask_of := None; l_task_dep := []; l_calc_dep := []; l_def := dep0 |};
+   {| l_name := 2%N; l_private := false; l_subtask_of := None; l_task_dep := []; l_calc_dep := []; l_def := dep1 |}].
+Example C20_ignored_after_checker_switch_nonvacuous :
+  let s := run (fun x => x) (fun _ => 4) current [Write 0 0; Write 1 1; SetDef 1 dep0; SetDef 2 dep1; SaveOk 1; SaveOk 2; Ignore 1; SetChecker TS]%N in
+  status_is_ignore (s_db s) 1%N = true /\ ck_changed (s_ck s) (getrec (s_db s) 1%N) = true /\ ck_changed (s_ck s) (getrec (s_db s) 2%N) = true /\
+  (exists lines d',
+     list_cmd (fun x => x) current N.ltb icurrent nocf isw_tab ex_opts (s_ck s) (s_fs s) (s_db s) = LOk lines d' /\
+     filter is_task_line lines = [LTask 1 (Some LtI); LTask 2 (Some LtR)]%N /\
+     d' 1%N = s_db s 1%N /\ d' 1%N <> None /\ d' 2%N = None /\
+     persisted BDbm (s_db s) d' 1%N = s_db s 1%N /\ persisted BDbm (s_db s) d' 2%N = None /\ persisted BSqlite (s_db s) d' 2%N = s_db s 2%N) /\
+  info_cmd (fun x => x) current icurrent nocf isw_tab [1%N] false (s_ck s) (s_fs s) (s_db s) = IOk IIgnored [] 0 (s_db s) /\
+  run_decision (fun x => x) current (s_ck s) (s_fs s) (s_db s) 1%N dep0 = DIgnore /\
+  (let g := get_status (fun x => x) current (s_ck s) (s_fs s) (s_db s) 1%N dep0 false in
+   g_status g = Run /\ g_db g 1%N = None /\ status_is_ignore (g_db g) 1%N = false).
+Proof.
+  cbv zeta. split; [vm_compute; reflexivity|]. split; [vm_compute; reflexivity|]. split; [vm_compute; reflexivity|].
+  split.
+  - eexists. eexists. split; [vm_compute; reflexivity|].
+    split; [vm_compute; reflexivity|]. split; [vm_compute; reflexivity|]. split; [vm_compute; discriminate|].
+    split; [vm_compute; reflexivity|]. split; [vm_compute; reflexivity|]. split; vm_compute; reflexivity.
+  - split; [vm_compute; reflexivity|]. split; [vm_compute; reflexivity|].
+    split; [vm_compute; reflexivity|]. split; vm_compute; reflexivity.
 Qed.
 
 (* select_task's hypotheses are satisfiable: a fresh runner state, one task, up-to-date *)
